@@ -23,6 +23,7 @@ import time
 from sim import audit, canon, core, corpus, simdisk
 
 PROP = "C18"
+SIM_MTIME = 1700000000
 FORMATS = ["classic", "bytes", "extended", "extended-bytes", "xasm", "header"]
 SMALL_MAX_CO = 1200
 SMALL_TOTAL = 6000
@@ -585,6 +586,9 @@ def _history_child(emit, ops, images, detail, tables_every_op, tables_at_end=Tru
                         os.unlink(n)
                 with open(name, "wb") as f:
                     f.write(images[sha])
+                # the simulated disk owns file metadata too: disassemble_file's source fallback reports
+                # st_mtime, which must not depend on when the simulator happened to write the slot
+                os.utime(name, (SIM_MTIME, SIM_MTIME))
                 continue
             rec = exec_op(op, detail)
             rec["j"] = j
